@@ -23,6 +23,8 @@ BATTERY = [
     "'{rhs}' == label", "'{lhs}' + '{op}' + '{rhs}'", "c ? '{rhs}' : '{lhs}'", "['%s', '{}', '{0}', '$1']", "f('{rhs}', '\\1') ; '{op}'", "{'{rhs}': '{lhs}'}", "- '{rhs}' ++", "'<B1|+|x|y>' + x", "x in ['|', '#', '~']",
     # names outside ASCII
     "é + ünit.price * ärea(1)", "ärea(é) ; ünit.price", "[é, {é: ünit.price}]", "日本 == é ? ärea() : 日本", "- é ++",
+    # left-leaning chains in which an operator returns after another one (X .. Y .. X), and the same to the right
+    "a - b + c - d", "a + b - c + d", "(a * b - c) * d", "a - b - c + d - e + f", "a == b != c == d", "a = b += c = d", "a && b || c && d || e", "x - (y + (z - w))", "f(a) - g(b) + f(c) - g(d)",
     # deep trees: descriptors apply at every depth
     "x" + " + 1" * 140, "[" * 130 + "x" + "]" * 130, "- " * 135 + "x", "f(" * 132 + "x" + ")" * 132, "x" + " ++" * 1 + " + y" * 129,
 ]
